@@ -85,9 +85,14 @@ func runC13(c *Check, rng *rand.Rand) {
 	c.Assumptions = []string{
 		"non-termination is restated as 'the same request is seen more than 8 times by the nodes'; the harness then stabilises the slot so the run can go on",
 		"redirect targets are nodes the proxy knows (part of its current topology)",
+		"third configuration: every node is named localhost:port instead of 127.0.0.1:port in CLUSTER NODES, in redirects and in the proxy configuration",
 	}
 	c13config(c, rng, 1)
 	c13config(c, rng, 2)
+	// the same with every node named by host name (CLUSTER NODES, redirects, configuration)
+	FakeHost = "localhost"
+	c13config(c, rng, 1)
+	FakeHost = "127.0.0.1"
 	c.MinEvals = 30
 }
 
